@@ -537,9 +537,20 @@ Qed.
 
 Definition chain_nonneg (ch : chain) : Prop := forall a, 0 <= st_nonce ch a.
 
-Theorem inv_reset c p ch : Inv p -> chain_nonneg ch -> Inv (run_reorg c p (Some (ch, [])) []).
+(** the pool a reset produces before the two truncations *)
+Definition reset_core (c : choice) (p : pool) (ch : chain) : pool :=
+  let q0 := do_reset c p ch [] in
+  let q1 := promote_executables q0 (accounts (p_queue q0)) in
+  let q2 := demote_unexecutables q1 in
+  set_nonces q2 (map (fun a => (a, max_nonce (of_acct a (p_pending q2)) + 1)) (accounts (p_pending q2))).
+
+Lemma run_reorg_reset_eq c p ch :
+  run_reorg c p (Some (ch, [])) [] = set_changes (truncate_queue (o3 c) (truncate_pending (o2 c) (reset_core c p ch))) 0.
+Proof. reflexivity. Qed.
+
+Lemma inv_reset_core c p ch : Inv p -> chain_nonneg ch -> Inv (reset_core c p ch).
 Proof.
-  intros I Hnn. unfold run_reorg, do_reset. cbn [add_txs_locked].
+  intros I Hnn. unfold reset_core, do_reset. cbn [add_txs_locked].
   set (q0 := set_galaxias (set_nonces (set_chain p ch) []) (chain_galaxias ch)).
   pose proof I as I0. apply Inv_split in I0. destruct I0 as [S0 A0].
   assert (Sq0 : Struct [] q0) by (eapply Struct_ext; [| | |exact S0]; reflexivity).
@@ -593,6 +604,12 @@ Proof.
         specialize (Hno (st_nonce (p_chain q2) a)). rewrite Hrun in Hno. unfold q3. cbn [p_chain set_nonces]. lia. }
     unfold AcctInv. rewrite Hpn. unfold q3 at 1 2 3 4. cbn [p_chain p_pending p_queue set_nonces].
     split; [exact Hrun|]. split; [exact Hx|]. split; [exact Hq|]. exact Haff. }
-  eapply Inv_core with (p := truncate_queue (o3 c) (truncate_pending (o2 c) q3)); [reflexivity|].
-  apply inv_truncate_queue. apply inv_truncate_pending. exact I3.
+  exact I3.
+Qed.
+
+Theorem inv_reset c p ch : Inv p -> chain_nonneg ch -> Inv (run_reorg c p (Some (ch, [])) []).
+Proof.
+  intros I Hnn. rewrite run_reorg_reset_eq.
+  eapply Inv_core with (p := truncate_queue (o3 c) (truncate_pending (o2 c) (reset_core c p ch))); [reflexivity|].
+  apply inv_truncate_queue. apply inv_truncate_pending. apply inv_reset_core; auto.
 Qed.
